@@ -517,7 +517,7 @@ func main() {
 	}
 	workers := runtime.NumCPU()
 	secWords := make([]int64, len(sp.secs))
-	for _, pass := range []string{"plain", "clobber"} {
+	for _, pass := range []string{"clobber", "plain"} { // the small pass first, so that a budget cap cannot starve it
 		// GOMAXPROCS=2: a child executes its words sequentially; more Ps only add GC threads that compete with the other children.
 		env := []string{"C06_PASS=" + pass, "GOMAXPROCS=2"}
 		if pass == "clobber" {
